@@ -255,6 +255,11 @@ func (s *Synchronizer) isReverting(
 		return 0, false
 	}
 
+	// The remote head differs from the local block at its height, so only the blocks below it may
+	// still be valid. At height 0 there is none (and 0 - 1 would wrap around to "every height").
+	if remoteHeight == 0 {
+		return 0, true
+	}
 	return remoteHeight - 1, true
 }
 
